@@ -5,21 +5,37 @@ import (
 	"fmt"
 )
 
-// Run executes one program of the given family.
-func Run(fam string, line []byte) ([]Ev, error) {
-	switch fam {
-	case "reader":
+// Runner executes one program (a JSON line) of a family and returns its trace
+// events, starting with a "Reset" event that carries "tid" = the program id.
+type Runner func(line []byte) ([]Ev, error)
+
+var families = map[string]Runner{}
+
+// Register adds a program family (called from init functions).
+func Register(fam string, r Runner) { families[fam] = r }
+
+func init() {
+	Register("reader", func(line []byte) ([]Ev, error) {
 		var p RProg
 		if err := json.Unmarshal(line, &p); err != nil {
 			return nil, err
 		}
 		return RunReader(&p), nil
-	case "writer":
+	})
+	Register("writer", func(line []byte) ([]Ev, error) {
 		var p WProg
 		if err := json.Unmarshal(line, &p); err != nil {
 			return nil, err
 		}
 		return RunWriter(&p), nil
+	})
+}
+
+// Run executes one program of the given family.
+func Run(fam string, line []byte) ([]Ev, error) {
+	r, ok := families[fam]
+	if !ok {
+		return nil, fmt.Errorf("unknown family %q", fam)
 	}
-	return nil, fmt.Errorf("unknown family %q", fam)
+	return r(line)
 }
